@@ -676,7 +676,7 @@ def o_r16_history(case):
         r = call(args, extra)
         why = check([np.array(c, copy=True) for c in cont], extra, r)
         if why:
-            stale = any(same_out(r, cp) for _, cp, _ in kept)
+            stale = any(same_out(r, tuple(cp)) for _, cp, _ in kept)
             return ('R16:stale-result:' if stale else 'R16:wrong-result:') + entry + role, (
                 'call %d of the history on the same array object(s), refilled in place: result %s%s' % (
                     k + 1, why, ' - it is bit for bit the result of an earlier call' if stale else ''))
